@@ -123,6 +123,14 @@ def run(ctx):
                 w2 = m.fetch(sources=[strip_disabled(s) for s in ss])
                 if w.as_str(attributes_level=3) != w2.as_str(attributes_level=3):
                     f = "disabled source objects influence the result"
+            if f is None:
+                # ... and so are disabled master objects (commented-out example instances, switched-off parameters)
+                try:
+                    w3 = strip_disabled(m).fetch(sources=ss)
+                    if strip_disabled(w).as_str(attributes_level=3) != strip_disabled(w3).as_str(attributes_level=3):
+                        f = "disabled master objects influence the result"
+                except BaseException as e:
+                    f = "fetch against the master without its disabled objects raised %s" % type(e).__name__
         elif ia[1] == "stray":
             f = "fetch raised %s: %s" % (ia[2], ia[3])
         if f and _fetch.has_nested_further(tree):
